@@ -35,7 +35,7 @@ a receiver descriptor is
     {'cls','shape','item','kind','mask','derivs','units','ro'}   (see RECV docs below)
 and an argument spec is a small list: ['lit', python literal] | ['self'] | ['same'] (a fresh equal
 twin of the receiver) | ['obj', receiver descriptor] | ['units', name] | ['cls', [names]] |
-['nparr', dtype, shape] | ['mask', rep] | ['index', tag] | ['derivdict', n] | ['omit'].
+['bcast'] (same class, a different broadcastable array shape) | ['nparr', dtype, shape] | ['mask', rep] | ['index', tag] | ['derivdict', n] | ['omit'].
 Everything is rebuilt from the descriptor by ``build_call`` so a descriptor alone replays a call.
 
 An Event has: desc, fn, recv, args, kwargs, ok (bool), result, exc (exception or None),
@@ -261,6 +261,7 @@ def obj_pool(cname, mname, pname, recv):
     shape = tuple(recv['shape']) if recv and 'shape' in recv else (3,)
     pool = [['same'], ['self'], ['obj', _scalar_desc((), 'float')], ['lit', 2], ['lit', 0.5]]
     pool.append(['obj', _scalar_desc(shape, 'float', 'mix' if shape not in ((), (0,)) else 'F', 't')])
+    pool.append(['bcast'])        # same class, another array shape that broadcasts with the receiver's
     pool.append(['lit', None])
     if cname == 'Units':
         return [['units', 'SEC'], ['self'], ['lit', None], ['lit', 2], ['units', 'KM']]
@@ -461,6 +462,15 @@ def build_arg(spec, recv, rdesc, Pm, salt=1):
         return build_receiver(rdesc, Pm, salt)
     if t == 'obj':
         return build_receiver(spec[1], Pm, salt)
+    if t == 'bcast':
+        if rdesc is None or 'shape' not in rdesc:
+            return Pm.Scalar([1., 2., 3.])
+        other = {(): (3,), (3,): (2, 3), (2, 3): (3,), (0,): (1,)}.get(tuple(rdesc['shape']), (1,))
+        d = dict(rdesc)
+        d['shape'] = list(other)
+        d['mask'] = 'F' if rdesc['mask'] in ('F', 'T') else 'mix'
+        d['ro'] = False
+        return build_receiver(d, Pm, salt)
     if t == 'units':
         return build_units(Pm, spec[1])
     if t == 'cls':
